@@ -68,3 +68,9 @@ Lemma filter_false {A} (f : A -> bool) l : (forall a, In a l -> f a = false) -> 
 Proof. induction l as [|a l IH]; cbn; intros H; auto. rewrite H by auto. apply IH. intros; apply H; auto. Qed.
 Lemma filter_length_le' {A} (f : A -> bool) l : length (filter f l) <= length l.
 Proof. induction l as [|a l IH]; cbn; auto. destruct (f a); cbn; lia. Qed.
+Lemma existsb_map_compat {A B} (f : A -> B) (p : B -> bool) l : existsb p (map f l) = existsb (fun x => p (f x)) l.
+Proof. induction l as [|a l IH]; cbn; auto. now rewrite IH. Qed.
+Lemma existsb_ext_in' {A} (f g : A -> bool) l : (forall a, In a l -> f a = g a) -> existsb f l = existsb g l.
+Proof. induction l as [|a l IH]; cbn; intros H; auto. rewrite H by auto. rewrite IH; auto. Qed.
+Lemma filter_map_comm {A B} (f : A -> B) (p : B -> bool) l : filter p (map f l) = map f (filter (fun x => p (f x)) l).
+Proof. induction l as [|a l IH]; cbn; auto. destruct (p (f a)); cbn; now rewrite IH. Qed.
